@@ -275,11 +275,15 @@ func c02CollisionJobs(r *lp.Run, rng *lp.Rand, add func(*c02Job)) {
 				continue
 			}
 			taken++
-			fl := []string(nil)
-			if r.Thorough() || rng.Bool() {
-				fl = allFeatureNames()
+			// the default feature set and every feature: some collisions exist under one of them only
+			// (thorough: both; quick: one of them at random — the table lists a pair that fails under either)
+			withAll := r.Thorough() || rng.Bool()
+			if withAll {
+				add(&c02Job{label: "collision", what: key, spec: collisionDoc(pos, name), collide: key, features: allFeatureNames()})
 			}
-			add(&c02Job{label: "collision", what: key, spec: collisionDoc(pos, name), collide: key, features: fl})
+			if r.Thorough() || !withAll {
+				add(&c02Job{label: "collision", what: key, spec: collisionDoc(pos, name), collide: key})
+			}
 		}
 	}
 	r.Exhaustive("collision stream", map[string]any{"positions": len(collisionPositions), "package_level_identifiers": len(d.pkgLevel), "members": len(d.members), "local_types": len(d.locals), "position_x_name_pairs": total, "pairs_run": taken, "all_pairs": r.Thorough()})
